@@ -3,15 +3,21 @@ import HeimdallModel.Model.Mech
 # Write footprints of mechanism methods (C17): the shape of the generated table and what is demanded of it
 
 `/verif/extract/footprint` (go/ssa) lists for every method of every mechanism type — closed under everything the
-method can call inside the heimdall module — the stores / map updates / appends / deletes whose target is derived
-from the **receiver** (`writes`, keyed by the receiver field the address was reached through), from a **package
-level variable** (`globals`), or from something the analysis could not resolve (`unknown`), the calls of
-**library** functions that get receiver- or global-derived memory as receiver (`ext`), and the receiver fields the
-method reads (`reads`).  `Gen/Footprints.lean` is regenerated from the working tree on every run.
+method can call inside the heimdall module — the stores / map updates / appends / deletes / atomic writes whose
+target is derived from the **receiver** (`writes`, keyed by the receiver field the address was reached through),
+from a **package level variable** (`globals`), or from something the analysis could not resolve (`unknown`);
+**every call of a function outside the module that is handed receiver- or global-derived mutable memory**, as
+receiver or as argument in any position, directly or inside a local object (`ext`; what such a function does to
+the memory is not analysed); the lock operations and atomic loads on such memory (`sync`); and the receiver fields
+the method reads (`reads`).  `Gen/Footprints.lean` is regenerated from the working tree on every run.
 
-The obligation on the generated table is `clean`: no write to receiver or global memory anywhere, and every
-library call on shared memory is one of `trustedExt` (calls documented to be safe for concurrent use).  A clean
-row yields a read-only thread program for the machine of `Model/Mech.lean`.
+The obligation on the generated table is `clean`: no write to receiver or global memory anywhere, every library
+call on shared memory is one of `trustedExt` (reviewed: reads what it is handed / documented as safe for
+concurrent use), every synchronisation operation is a read lock (`trustedSync`).  A clean row yields a read-only
+thread program for the machine of `Model/Mech.lean`.  Rows of kind `reload` (watcher callbacks that replace key
+material: `jwtSigner.OnChanged`, `HTTPMessageSignatures.OnChanged`) are the writers that are meant to exist; they
+are not subject to `clean` but to `reloadGuarded` (they take the write lock; the request path takes the read
+lock).  What a reload does to the observable state of a signer is the subject of C16, not of C17.
 -/
 namespace Heimdall.Footprint
 open Heimdall.Mech
@@ -24,23 +30,36 @@ structure Row where
   reads   : List String            -- receiver fields read by the method closure
   writes  : List (String × String) -- (receiver field, what) written in place
   globals : List (String × String) -- (package variable, what) written in place
-  ext     : List (String × String) -- (root, library function called on it)
+  ext     : List (String × String) -- (root, library function handed it)
+  sync    : List (String × String) -- (root, lock operation / atomic load on it)
   unknown : List (String × String)
 deriving Repr, DecidableEq
 
-/-- Library calls on shared (receiver / package level) memory that are trusted not to write it without
-synchronisation.  Every entry is an assumption about a third-party API:
-* `text/template.(*Template).Execute`: "A template may be executed safely in parallel" (package doc);
-* cel-go `Program.Eval`: programs are stateless and safe for concurrent evaluation; `Env.Compile/Check/Program`
-  do not modify the environment (the lazily built checker is guarded by `sync.Once`);
-* `validator.(*Validate).Struct`: "Validate is designed to be thread-safe" (caches guarded internally);
-* go-jose `(*JSONWebKey).Thumbprint` (v4.0.4, jwk.go:388, reviewed): switches on the type of `k.Key`, formats the
-  public parameters (`big.Int.Bytes()` / `newFixedSizeBuffer` copy into new slices) and hashes the string; it assigns
-  neither to the receiver nor to the key it refers to;
-* `http.Client.Do` on a client built per call, response bodies, header maps of the response, gjson results,
-  base64 encodings, jose builders: values owned by the call or immutable. -/
+/-- Library functions that are handed shared (receiver / package level) memory and are trusted not to write it
+without synchronisation.  Every entry is a reviewed assumption about a third-party / standard library API:
+
+* pure readers of their arguments (documented or by inspection of the pinned version): `strings.Join`,
+  `slices.Contains`, `slices.Sorted` (collects into a new slice and sorts that), `maps.Clone`, `maps.Keys`,
+  `maps.Copy` (writes its *first* argument only; a shared first argument is reported as a store by the extractor),
+  `reflect.DeepEqual`, `errors.Is`, `errors.As` (writes its target, a local), `fmt.Errorf`, `json.Marshal`,
+  `json.Unmarshal` / `Decoder.Decode` (write their destination, reported as a store if shared; read the data),
+  `json.NewDecoder`, `gjson.GetBytes` / `Result.String` / `Result.Value`, `io.ReadAll`, `io.TeeReader`,
+  `(io.Writer).Write` ("Write must not modify the slice data, even temporarily"), `(io.ReadCloser).Close`,
+  `(http.Header).Get`, `(*base64.Encoding).DecodeString`;
+* safe for concurrent use by documentation: `text/template.(*Template).Execute` ("may be executed safely in
+  parallel"), cel-go `Program.Eval` (stateless programs) and `Env.Compile/Check/Program`, `Ast.OutputType`,
+  `Issues.Err`, `ref.Val.Value` (the environment is not modified; the lazily built checker is guarded by
+  `sync.Once`), `validator.(*Validate).Struct` ("designed to be thread-safe"), `(*http.Client).Do` and
+  `otelhttp.NewTransport` / `httpretry.NewCustomClient` / `WithBackoffPolicy` / the `ExponentialBackoff` function
+  value over `http.DefaultTransport` (wrap, do not modify, a transport built for concurrent use),
+  `(*ttlcache.Cache).Set` (internally locked);
+* key material, read only: go-jose `NewSigner`, `jwt.Signed`, `Builder.Claims`, `Builder.Serialize` (sign with the
+  key they are handed), `httpsig.Signer.Sign`, `(*JSONWebKey).Thumbprint` (v4.0.4, jwk.go:388, reviewed: a type
+  switch on `k.Key`, the public parameters are copied into new slices and hashed; no assignment to the receiver
+  or to what it refers to). -/
 def trustedExt : List String := [
   "(*encoding/base64.Encoding).DecodeString",
+  "(*github.com/go-jose/go-jose/v4.JSONWebKey).Thumbprint",
   "(*github.com/go-playground/validator/v10.Validate).Struct",
   "(*github.com/goccy/go-json.Decoder).Decode",
   "(*github.com/google/cel-go/cel.Ast).OutputType",
@@ -48,9 +67,9 @@ def trustedExt : List String := [
   "(*github.com/google/cel-go/cel.Env).Compile",
   "(*github.com/google/cel-go/cel.Env).Program",
   "(*github.com/google/cel-go/cel.Issues).Err",
+  "(*github.com/jellydator/ttlcache/v3.Cache).Set",
   "(*net/http.Client).Do",
   "(*text/template.Template).Execute",
-  "(*github.com/go-jose/go-jose/v4.JSONWebKey).Thumbprint",
   "(github.com/dadrus/httpsig.Signer).Sign",
   "(github.com/go-jose/go-jose/v4/jwt.Builder).Claims",
   "(github.com/go-jose/go-jose/v4/jwt.Builder).Serialize",
@@ -59,14 +78,50 @@ def trustedExt : List String := [
   "(github.com/tidwall/gjson.Result).String",
   "(github.com/tidwall/gjson.Result).Value",
   "(io.ReadCloser).Close",
-  "(net/http.Header).Get"
+  "(io.Writer).Write",
+  "(net/http.Header).Get",
+  "errors.As",
+  "errors.Is",
+  "fmt.Errorf",
+  "func value func(minWait time.Duration, maxWait time.Duration, maxJitter time.Duration) github.com/ybbus/httpretry.BackoffPolicy",
+  "github.com/go-jose/go-jose/v4.NewSigner",
+  "github.com/go-jose/go-jose/v4/jwt.Signed",
+  "github.com/goccy/go-json.Marshal",
+  "github.com/goccy/go-json.NewDecoder",
+  "github.com/goccy/go-json.Unmarshal",
+  "github.com/tidwall/gjson.GetBytes",
+  "github.com/ybbus/httpretry.NewCustomClient",
+  "github.com/ybbus/httpretry.WithBackoffPolicy",
+  "go.opentelemetry.io/contrib/instrumentation/net/http/otelhttp.NewTransport",
+  "io.ReadAll",
+  "io.TeeReader",
+  "maps.Clone",
+  "maps.Copy",
+  "maps.Keys",
+  "reflect.DeepEqual",
+  "slices.Contains",
+  "slices.Sorted",
+  "strings.Join"
 ]
 
+/-- synchronisation on shared memory the request path may perform: taking and releasing a read lock -/
+def trustedSync : List String := ["(*sync.RWMutex).RLock", "(*sync.RWMutex).RUnlock"]
+
 def Row.clean (r : Row) : Bool :=
-  r.writes.isEmpty && r.globals.isEmpty && r.unknown.isEmpty && r.ext.all fun e => trustedExt.contains e.2
+  r.kind == "reload" ||
+  (r.writes.isEmpty && r.globals.isEmpty && r.unknown.isEmpty && (r.ext.all fun e => trustedExt.contains e.2) &&
+   r.sync.all fun e => trustedSync.contains e.2)
 
 /-- the whole table is free of in-place writes to shared memory -/
 def clean (t : List Row) : Bool := t.all Row.clean
+
+/-- reload callbacks replace state under the write lock, and the request path of the jwt finalizer (the only
+mechanism that refers to reloadable state directly) reads it under the read lock -/
+def reloadGuarded (t : List Row) : Bool :=
+  (t.all fun r => r.kind != "reload" ||
+    ((r.sync.any fun e => e.2 == "(*sync.RWMutex).Lock") && (r.sync.any fun e => e.2 == "(*sync.RWMutex).Unlock"))) &&
+  (t.all fun r => !(r.typ == "jwtFinalizer" && r.method == "Execute") ||
+    ((r.sync.any fun e => e.2 == "(*sync.RWMutex).RLock") && (r.sync.any fun e => e.2 == "(*sync.RWMutex).RUnlock")))
 
 /-- rows violating the obligation (for the report) -/
 def dirty (t : List Row) : List Row := t.filter fun r => !r.clean
@@ -83,7 +138,7 @@ def lookup (t : List Row) (typ method : String) : Option Row :=
 def requiredMethods (kind : String) : List String :=
   if kind == "authenticator" then ["Execute", "ID", "IsFallbackOnErrorAllowed", "WithConfig"]
   else if kind == "error_handler" then ["Execute", "ID", "WithConfig"]
-  else if kind == "factory" then []
+  else if kind == "factory" || kind == "reload" then []
   else ["ContinueOnError", "Execute", "ID", "WithConfig"]
 
 /-- (kind, Go type, fields) of every mechanism type of the table, without repetition -/
@@ -93,5 +148,8 @@ def types (t : List Row) : List (String × String × List String) :=
 /-- every type of the table has a row for each required method -/
 def complete (t : List Row) : Bool :=
   (types t).all fun x => (requiredMethods x.1).all fun m => (lookup t x.2.1 m).isSome
+
+/-- the same strings, in any order -/
+def sameSet (a b : List String) : Bool := (a.all fun x => b.contains x) && (b.all fun x => a.contains x)
 
 end Heimdall.Footprint
